@@ -204,8 +204,12 @@ def write_evidence(ctx, level, explanation, assumptions, violations, known_hits,
             }
         )
     distinct = len({(r.id, i["instance"]) for r in ctx.rules.values() for i in r.instances})
+    # the list of rules actually applied in this run leads the explanation (the module text may lag behind new rules)
+    applied = "rules applied in this run: " + ", ".join("%s (%d)" % (r["rule"], r["instances"]) for r in rules)
+    if explanation and not explanation.startswith("rules "):
+        applied += ".  " + explanation
     cov = {
-        "explanation": explanation,
+        "explanation": applied,
         "obligations": n_inst,
         "discharged": n_ok,
         "evaluations": n_inst,
